@@ -582,7 +582,7 @@ func (ex *Exec) blockUntil(f func() bool) {
 }
 
 func (ex *Exec) spawn(fn Value, args []Value, call *ssa.CallCommon) {
-	g := &G{id: len(ex.gs), resume: make(chan bool)}
+	g := &G{id: len(ex.gs), resume: make(chan bool, 1)}
 	ex.gs = append(ex.gs, g)
 	go func() {
 		ok := <-g.resume
